@@ -90,13 +90,20 @@ def meta_objs(spec):
     return m, v
 
 
+def _untuple(v):
+    """{'__tuple__': [...]} -> tuple, recursively (JSON has no tuples)."""
+    if isinstance(v, dict) and '__tuple__' in v:
+        return tuple(_untuple(x) for x in v['__tuple__'])
+    if isinstance(v, list):
+        return [_untuple(x) for x in v]
+    return v
+
+
 def _detuple(d):
     import copy
     out = {}
     for k, v in d.items():
-        if isinstance(v, dict) and v.get('__tuple__') is not None:
-            v = tuple(v['__tuple__'])
-        out[k] = copy.deepcopy(v)     # never share objects with the spec
+        out[k] = copy.deepcopy(_untuple(v))   # never share objects with the spec
     return out
 
 
